@@ -13,6 +13,7 @@ import Driver.DeclaratorsDrv
 import Driver.ScopesDrv
 import Driver.UnparseDrv
 import Driver.TypedefsDrv
+import Driver.StmtCtxDrv
 /-! `psymodel <component>`: reads one case per line on stdin, answers one line per case. -/
 
 partial def loop (h : IO.FS.Stream) (out : IO.FS.Stream) (f : String → String) : IO Unit := do
@@ -39,5 +40,6 @@ def main (args : List String) : IO UInt32 := do
   | ["scopes"] => loop stdin stdout Driver.ScopesDrv.handle; return 0
   | ["unparse"] => loop stdin stdout Driver.UnparseDrv.handle; return 0
   | ["typedefs"] => loop stdin stdout Driver.TypedefsDrv.handle; return 0
+  | ["stmtctx"] => loop stdin stdout Driver.StmtCtxDrv.handle; return 0
   | ["climb"] => loop stdin stdout Driver.ClimbDrv.handle; return 0
   | _ => IO.eprintln "usage: psymodel <component>"; return 2
